@@ -12,7 +12,7 @@ from __future__ import annotations
 
 import ast
 import re
-from typing import List, Set
+from typing import Dict, List, Set
 
 from ..absstr import Evaluator, alphabet_of
 from ..astq import assignments, calls, kwarg, local_from, names_in, params, stmts
@@ -42,9 +42,22 @@ def run(chk: Check, proj: Project) -> None:
 
 
 def _twin_dump(f, amap) -> str:
+    """ast.dump of `f` with the kind (js/css) abstracted in strings and attributes and the function's own local names
+    (parameters, assigned names) alpha-renamed in order of first occurrence, so that twins compare equal up to the kind
+    and up to the spelling of locals."""
     import copy
 
     c = copy.deepcopy(f)
+    local = {a.arg for a in c.args.args + c.args.kwonlyargs + c.args.posonlyargs}
+    local |= {n.id for n in ast.walk(c) if isinstance(n, ast.Name) and isinstance(n.ctx, ast.Store)}
+    order: Dict[str, str] = {}
+
+    def ren(name: str) -> str:
+        if name in local:
+            return order.setdefault(name, f"_L{len(order)}")
+        return name
+
+    c.name = "F"
     for n in ast.walk(c):
         if isinstance(n, ast.Constant) and isinstance(n.value, str):
             v = n.value
@@ -55,14 +68,18 @@ def _twin_dump(f, amap) -> str:
             for a, b in amap:
                 if n.attr == a:
                     n.attr = b
-        elif isinstance(n, ast.Name):
-            for a, b in amap:
-                n.id = n.id.replace(a, b) if a in n.id.split("_") else n.id
         elif isinstance(n, ast.arg):
-            for a, b in amap:
-                n.arg = n.arg.replace(a, b) if a in n.arg.split("_") else n.arg
-        elif isinstance(n, (ast.FunctionDef,)):
-            n.name = "F"
+            n.arg = ren(n.arg)
+        elif isinstance(n, ast.keyword):
+            pass
+    # names in source order (ast.walk is breadth-first; use a deterministic pre-order instead)
+    def pre(n):
+        if isinstance(n, ast.Name):
+            n.id = ren(n.id)
+        for ch in ast.iter_child_nodes(n):
+            pre(ch)
+
+    pre(c)
     for n in ast.walk(c):
         if isinstance(n, ast.FunctionDef) and n.body and isinstance(n.body[0], ast.Expr) and isinstance(n.body[0].value, ast.Constant):
             n.body = n.body[1:] or [ast.Pass()]
